@@ -162,7 +162,8 @@ Record chg (W : nat -> Prop) (s s' : st) : Prop := mkChg {
           In (CbWakeup t) (fcbs (getf s g)) \/ t < length (tasks s');
   c_hcbs : forall c, In c (hcbs s') -> In c (hcbs s) \/ cb_task_ok s' c;
   c_foreign : forall f, foreign s' f -> foreign s f \/ (f < length (futs s') /\ ~ lockfut s f);
-  c_cpq : (forall c, PQInv (cpq (getc s c))) -> forall c, PQInv (cpq (getc s' c))
+  c_cpq : (forall c, PQInv (cpq (getc s c))) -> forall c, PQInv (cpq (getc s' c));
+  c_done : forall g, fdone s g = true -> fdone s' g = true
 }.
 
 Arguments c_nlocks {W s s'} _.
@@ -177,6 +178,7 @@ Arguments c_cbs {W s s'} _.
 Arguments c_hcbs {W s s'} _.
 Arguments c_foreign {W s s'} _.
 Arguments c_cpq {W s s'} _.
+Arguments c_done {W s s'} _.
 
 Lemma chg_objs W s s' l : chg W s s' -> objs s' l = objs s l.
 Proof. intros H. unfold objs. destruct (c_lock H l) as (_ & _ & -> & _). reflexivity. Qed.
@@ -302,6 +304,7 @@ Proof.
   - intros c. rewrite Eh. auto.
   - intros f Hfo. left. unfold foreign, getl, gete, getc in *. rewrite El, Ee, Ec, Eh in Hfo. exact Hfo.
   - intros Hc c. unfold getc. rewrite Ec. apply Hc.
+  - intros g. unfold fdone. now rewrite Hf.
 Qed.
 
 (* ------------------------------------------------------------ lockstep *)
